@@ -22,7 +22,8 @@ CLAIM = dict(
          "power rules) -- no chain rule assumed; the closures and initial vectors the *_from_graph wrappers build from rho are the polynomial (1-rho)P_k with its formal "
          "derivatives and the manifold point Phi(1,0); preferential-mixing EBCM with P(k'|k)=k'P(k')/<k> = EBCM, continuous (vector fields on the invariant subspace) "
          "and discrete (lock-step for every number of steps); EBCM -> SIR compact effective degree (S_kappa = N sum_k c_k C(k,kappa) u^kappa v^(k-kappa), proved through the binomial "
-         "moments and the absorption identity).  The full (s,i) effective degree model is compared with EBCM by curves only.",
+         "moments and the absorption identity); EBCM -> SIR effective degree, the full (s,i) model (S_si = N sum_k c_k C(k,s)C(k-s,i) phiS^s phiI^i phiR^(k-s-i); trinomial moments), "
+         "also over the definition generated from the source.  Only the initial point of SIR_effective_degree_from_graph is checked numerically instead of proved.",
     design='DESIGN.md section 4, C07; section 8.2 row C07',
     technique='Coq proof over translator-generated right-hand sides + hand-written model of the dict-based routines tied by point evaluation + numerical re-evaluation of every identity on the Python functions',
     note='part of C07 (harness/c07.py); cited: Picard-Lindeloef uniqueness for the lift to curves (continuous-time models only)')
@@ -30,9 +31,9 @@ CLAIM = dict(
 COMP = 'c07x'
 # what Props/C07x.v reaches; the rest of the hierarchy clause is carried by the numerical identities below and the curve oracles of harness/c07.py
 PROVED_STATE = {'proved': ['EBCM -> SIR compact effective degree (binomial change of variables Phi_ced, formal derivative) and the wrapper\'s initial point Phi_ced(1,0)',
+                           'EBCM -> SIR effective degree, full (s,i) model (trinomial change of variables Phi_ed), over the hand-written model and over the definition generated from the source',
                            'heterogeneous mean-field SIR on one degree class -> homogeneous mean-field SIR without the assumed chain rule'],
-                'numerical': ['SIR effective degree (full (s,i) model) vs EBCM: curves only',
-                              'initial conditions of SIR_effective_degree_from_graph']}
+                'numerical': ['initial point of SIR_effective_degree_from_graph = Phi_ed(1,0): numerical on every run (captured arguments), not proved']}
 
 
 # ------------------------------------------------------------------ closed forms (L0, generic arithmetic) ----
@@ -473,10 +474,10 @@ def part(run, tier, report, EoN=None):
             report(run, 'C07/%s' % what, detail + ' -- the numerical re-evaluation of the identities found no failing input of the property',
                    {'broken': what, 'detail': detail, 'log': xp.get('log', '')[-2000:]}, no_input=True)
     return dict(props=xp, n_eval=n_eval, n_distinct=len(sp) + len(wp), stats=stats, broken=broken,
-                rule='C07x: every identity of Props/C07x.v (EBCM -> super-compact pairwise -> compact pairwise, EBCM -> compact effective degree, pref-mix continuous and discrete) '
+                rule='C07x: every identity of Props/C07x.v (EBCM -> super-compact pairwise -> compact pairwise, EBCM -> compact effective degree, EBCM -> effective degree, pref-mix continuous and discrete, heterogeneous -> homogeneous mean-field SIR) '
                      're-evaluated on the Python right-hand sides at random points of the invariant manifold (degree distributions with 3-7 classes, dyadic, rho in [1/16,1/2], theta in [1/4,1], '
                      'arbitrary phiS0/phiR0), rel 1e-9; arguments and initial vectors that EBCM_from_graph, SIR_super_compact_pairwise_from_graph, SIR_compact_pairwise_from_graph, '
-                     'SIR_compact_effective_degree_from_graph pass on the rho path (captured) against the polynomial closures and the manifold point Phi(1,0); extracted Phi/DPhi against the '
+                     'SIR_compact_effective_degree_from_graph, SIR_effective_degree_from_graph pass on the rho path (captured) against the polynomial closures and the manifold point Phi(1,0); extracted Phi/DPhi against the '
                      'closed forms (exact); hand-written pref-mix models against the code on arbitrary mixing matrices.')
 
 
